@@ -332,3 +332,74 @@ def utility_semantics(ctx, rep, rule: str, which: tuple[str, ...] = ("merge_smal
             if got != want:
                 bad.append((getattr(d, "bits", "bool"), got, want))
         rep.ob(rule, "utility:get_dtype_size", not bad, fi.loc(), f"{n} dtypes: bool -> 1 byte, otherwise ceil(bits / 8) bytes (float and integer types)" + (f"; first disagreement: bits={bad[0][0]}: code {bad[0][1]}, documented {bad[0][2]}" if bad else ""), sample=True)
+
+
+def cached_functions_are_functions_of_their_key(ctx, rep, rule: str) -> None:
+    """A memoised function (functools.cache / lru_cache) must be a function of its arguments: every parameter is used in the
+    result, and nothing else (an attribute of self, a mutable global, another argument smuggled through a closure) feeds it —
+    otherwise two calls with the same key but different circumstances share one result."""
+    repo = ctx.repo
+    n = 0
+    for fi in repo.funcs.values():
+        decos = {d.split(".")[-1] for d in fi.decorators}
+        if not decos & {"cache", "lru_cache", "cached_property"}:
+            continue
+        n += 1
+        params = [p for p in fi.params]
+        used = {x.id for x in ast.walk(fi.node) if isinstance(x, ast.Name) and isinstance(x.ctx, ast.Load)}
+        unused = [p for p in params if p not in used and p not in ("self", "cls")]
+        m = fi.module
+        free = {x for x in used if x not in params and x not in {y.id for y in ast.walk(fi.node) if isinstance(y, ast.Name) and isinstance(y.ctx, ast.Store)}}
+        # free names must be imports, classes, functions or constants of the module (or builtins)
+        import builtins
+
+        foreign = sorted(x for x in free if not (x in m.imports or x in m.classes or x in m.functions or x in m.constants or hasattr(builtins, x)))
+        method = fi.cls is not None and not fi.is_static
+        rep.ob(rule, f"cache-key:{short(fi.qual)}", not unused and not foreign and not method, fi.loc(), f"memoised `{fi.name}({', '.join(params)})`: every parameter feeds the result (unused: {unused}); no other input (foreign names: {foreign}; bound method: {method})", sample=True)
+    rep.floor(rule, "memoised functions", n, 1)
+
+
+def late_binding_closures(ctx, rep, rule: str, modules: tuple[str, ...] = ("distributed_shampoo",)) -> None:
+    """A lambda / nested function created inside a loop or comprehension and kept for later (stored in an object, a list, a
+    dict, returned) must not read the loop variable as a free variable: Python binds it late, so every kept closure would see
+    the value of the last iteration (e.g. every block allocating its state on the last block's owner)."""
+    repo = ctx.repo
+    n = 0
+    consumers = {"sorted", "min", "max", "filter", "map", "reduce", "sum", "any", "all", "tuple", "list", "next"}
+    for fi in repo.funcs.values():
+        if not fi.module.name.startswith(modules) or fi.parent is not None:
+            continue
+        par = A.parents(fi.node)
+        for lam in [x for x in ast.walk(fi.node) if isinstance(x, (ast.Lambda, ast.FunctionDef, ast.AsyncFunctionDef)) and x is not fi.node]:
+            own = set()
+            a = lam.args
+            own |= {y.arg for y in a.posonlyargs + a.args + a.kwonlyargs} | ({a.vararg.arg} if a.vararg else set()) | ({a.kwarg.arg} if a.kwarg else set())
+            body_nodes = list(ast.walk(lam.body)) if isinstance(lam, ast.Lambda) else [y for st in lam.body for y in ast.walk(st)]
+            own |= {y.id for y in body_nodes if isinstance(y, ast.Name) and isinstance(y.ctx, ast.Store)}
+            free = {y.id for y in body_nodes if isinstance(y, ast.Name) and isinstance(y.ctx, ast.Load)} - own
+            # enclosing loops / comprehensions and their variables
+            loopvars: set[str] = set()
+            x = lam
+            immediate = False
+            first = True
+            while id(x) in par:
+                p = par[id(x)]
+                if first and isinstance(p, ast.Call) and ((isinstance(p.func, ast.Name) and p.func.id in consumers) or p.func is x):
+                    immediate = True  # consumed by the call it is an argument of
+                if first and isinstance(p, ast.keyword):
+                    pp = par.get(id(p))
+                    if isinstance(pp, ast.Call) and isinstance(pp.func, ast.Name) and pp.func.id in consumers:
+                        immediate = True
+                first = False
+                if isinstance(p, (ast.For, ast.AsyncFor)) and any(x is s_ or any(x is y for y in ast.walk(s_)) for s_ in p.body):
+                    loopvars |= {y.id for y in ast.walk(p.target) if isinstance(y, ast.Name)}
+                if isinstance(p, (ast.ListComp, ast.SetComp, ast.DictComp, ast.GeneratorExp)):
+                    loopvars |= {y.id for g in p.generators for y in ast.walk(g.target) if isinstance(y, ast.Name)}
+                x = p
+            if not loopvars:
+                continue
+            n += 1
+            captured = sorted(free & loopvars)
+            # a default argument `x=x` binds early
+            rep.ob(rule, f"late-binding:{short(fi.qual)}:{getattr(lam, 'name', 'lambda')}@{'/'.join(sorted(loopvars))[:40]}", immediate or not captured, fi.loc(lam), f"closure created per iteration over ({', '.join(sorted(loopvars))})" + (f" reads the loop variable(s) {captured} late: kept closures all see the last iteration's value (bind them with functools.partial or a default argument)" if captured and not immediate else ": binds nothing of the loop late"), sample=(n % 3 == 0))
+    rep.notes["closures created inside loops examined"] = n
